@@ -54,18 +54,36 @@ def run(ctx, rep):
         rep.rule(r, tx)
     AR = prog.find1(r"^rustic_core::archiver::Archiver::<'a, BE, I>::archive$")
     fam = [c for c in prog.closures_of(AR, recursive=False)]
-    # the scope closure that builds the pipeline: contains the call chain ending in try_for_each(tree_archiver.add)
-    pipe = [c for c in fam if any("callee" in t and callee_decl(t).endswith("Iterator::try_for_each") for _, t in c.calls())]
-    rep.require("C13.a", "pipeline-closure", len(pipe) == 1, where=AR.loc(), what="Archiver::archive builds its pipeline in one scoped closure ending in try_for_each")
+    # the scope closure that builds the pipeline: its chain ends in try_for_each(|item| tree_archiver.add(item)) or in a `for` loop
+    # whose body calls tree_archiver.add; in both forms the iterator that is consumed is what the rule looks at
+    ADD_RX = r"tree_archiver::TreeArchiver::<'a, BE, I>::add$"
+    pipe = []
+    for c_ in fam:
+        tfe_ = [(bb, t) for bb, t in c_.calls() if "callee" in t and callee_decl(t).endswith("Iterator::try_for_each")]
+        direct = [(bb, t) for bb, t in c_.calls() if "callee" in t and re.search(ADD_RX, callee(t))]
+        if tfe_ or direct:
+            pipe.append(c_)
+    rep.require("C13.a", "pipeline-closure", len(pipe) == 1, where=AR.loc(), what="Archiver::archive builds its pipeline in one scoped closure that feeds TreeArchiver::add")
     if len(pipe) == 1:
         c = pipe[0]
-        tfe = [(bb, t) for bb, t in c.calls() if "callee" in t and callee_decl(t).endswith("Iterator::try_for_each")][0]
-        # the consumer closure calls TreeArchiver::add
-        sub = prog.closures_of(c, recursive=False)
-        consumer = [s for s in sub if any("callee" in t and callee(t).endswith("tree_archiver::TreeArchiver::<'a, BE, I>::add") for _, t in s.calls())]
-        rep.check("C13.a", "consumer", len(consumer) == 1, where=where(c, tfe[0]), what="the pipeline's consumer is TreeArchiver::add")
+        tfes = [(bb, t) for bb, t in c.calls() if "callee" in t and callee_decl(t).endswith("Iterator::try_for_each")]
+        direct = [(bb, t) for bb, t in c.calls() if "callee" in t and re.search(ADD_RX, callee(t))]
+        if tfes:
+            tfe = tfes[0]
+            # the consumer closure calls TreeArchiver::add
+            sub = prog.closures_of(c, recursive=False)
+            consumer = [s for s in sub if any("callee" in t and re.search(ADD_RX, callee(t)) for _, t in s.calls())]
+            rep.check("C13.a", "consumer", len(consumer) == 1, where=where(c, tfe[0]), what="the pipeline's consumer is TreeArchiver::add")
+            recv_place = op_place(tfe[1]["args"][0])
+        else:
+            # `for item in <pipeline> { .. tree_archiver.add(item)? .. }`: the consumed iterator is the receiver of the loop's next()
+            nx = [(bb, t) for bb, t in c.calls() if "callee" in t and re.search(r"Iterator(>)?::next$", callee(t) + " " + callee_decl(t))
+                  and any(bb in flow.backward_slice(c, op_place(a_))["call_sites"] for _, dt in direct for a_ in dt["args"][1:] if op_place(a_))]
+            rep.check("C13.a", "consumer", len(direct) == 1 and len(nx) == 1, where=where(c, direct[0][0]), what="the pipeline's consumer is TreeArchiver::add, fed by one loop over the pipeline")
+            tfe = nx[0] if nx else direct[0]
+            recv_place = op_place(nx[0][1]["args"][0]) if nx else None
         # every call in the backward slice of try_for_each's receiver that is an iterator adaptor must be ordered
-        sl = flow.backward_slice(c, op_place(tfe[1]["args"][0]))
+        sl = flow.backward_slice(c, recv_place) if recv_place else {"call_sites": set()}
         adaptors = []
         bad = []
         for cb in sorted(sl["call_sites"]):
@@ -82,7 +100,7 @@ def run(ctx, rep):
                 bad.append(cd)
             elif not (ORDERED.search(cd) or ORDERED.search(cn) or cd.endswith("ReadSource::entries") or cn.endswith("::entries")):
                 bad.append(cd)
-        rep.check("C13.a", "adaptors-ordered", len(adaptors) >= 5 and not bad, where=c.loc(),
+        rep.check("C13.a", "adaptors-ordered", len(adaptors) >= 4 and not bad, where=c.loc(),
                   what=f"all {len(adaptors)} adaptors between src.entries() and TreeArchiver::add preserve order: {adaptors}" if not bad else
                        f"the archive pipeline contains adaptors that do not preserve order (or are not on the allow-list): {bad}; tree entries would be added in scheduling order")
     termination_rules(ctx, rep)
